@@ -20,7 +20,7 @@ ID = "C06"
 RULE = ("expression trees as data (arith, unary minus, comparisons, LIKE, AND/OR/XOR, NOT, IN, BETWEEN, IS NULL, bitwise-and; leaves: "
         "columns, positive/zero/negative numbers, strings, NULL, CASE, function calls, POW/MOD, aggregates, tuples, subqueries): every "
         "(parent, child, position) triple enumerated under all six contexts + Hypothesis random trees. Non-trivial = depth >= 2 with a "
-        "parent/child pair of different operator kinds or a non-commutative parent; distinct = distinct (tree, context).")
+        "parent/child pair of different operator kinds or a non-commutative parent; distinct = distinct (tree, context). Plus plain Python numbers as left / right operands (the reflected operators) over every kind of other operand, and the LIKE family (ILIKE, RLIKE, REGEX, GLOB and negations).")
 ASSUMPTIONS = [
     "precedence ladder: OR < XOR < AND < NOT < comparison-level (= <> < > <= >= IS IN LIKE BETWEEN, one left-associative level) < & < +,- < *,/ < unary minus",
     "re-association accepted only inside +/- chains (signed operand lists), pure * chains and AND/OR/XOR chains of one connective",
@@ -29,7 +29,7 @@ ASSUMPTIONS = [
 
 ARITH = ("add", "sub", "mul", "div")
 CMPS = ("eq", "ne", "gt", "ge", "lt", "le")
-MATCHES = ("like", "not_like")
+MATCHES = ("like", "not_like", "ilike", "not_ilike", "rlike", "regex", "glob")
 BOOLS = ("and", "or", "xor")
 CRIT_KINDS = CMPS + MATCHES + BOOLS + ("not", "isnull", "in", "notin", "between", "bitand", "col", "cfn", "tuple")
 CTXS = prog.CLS_NAMES
